@@ -145,7 +145,11 @@ func c19GenPlan(ctx *core.Ctx) []c19GenCase {
 	// (j < numPrimes: the call cannot have its primes, so every producer arrives at the failing Read), for every
 	// concurrency 1..8; alone ("the consumer receives one error, nobody receives the others") and with the caller's
 	// context cancelled while the producers are inside the Read ("nobody receives any of them")
-	for r := 0; r < ctx.Pick(1, 8); r++ {
+	barReps := ctx.Pick(1, 8)
+	if os.Getenv("VERIF_C19_NOBARRIER") != "" {
+		barReps = 0 // sensitivity experiments only: what the check sees without the forced schedules
+	}
+	for r := 0; r < barReps; r++ {
 		for c := 1; c <= 8; c++ {
 			for j := 0; j <= 2; j++ {
 				for _, can := range []string{"none", "held"} {
@@ -158,7 +162,16 @@ func c19GenPlan(ctx *core.Ctx) []c19GenCase {
 			}
 		}
 	}
-	for _, bits := range []int{256, 1024} {
+	// a transient fault: Read call number j+1 fails, all the others succeed - one producer reports the error and exits,
+	// the others go on; the call has to return (the error, or its primes if it had them first)
+	for r := 0; r < ctx.Pick(1, 6); r++ {
+		for c := 1; c <= 8; c++ {
+			for _, j := range []int{0, 1, 3} {
+				add(c19GenCase{Bits: 6 + rng.Intn(11), C: c, N: 1 + rng.Intn(3), Entropy: "transient", OkReads: j})
+			}
+		}
+	}
+	for _, bits := range []int{256, 1024}[:2*min(barReps, 1)] {
 		add(c19GenCase{Bits: bits, C: 8, N: 2, Entropy: "barrier", OkReads: 1, Procs: 16})
 		add(c19GenCase{Bits: bits, C: 6, N: 1, Entropy: "barrier", OkReads: 0, Cancel: "held", Procs: 16})
 	}
@@ -730,27 +743,27 @@ func c19Main(s *c19State) error {
 	}
 	addJob("samplers", c19SamplersOpt(ctx.Thorough()))
 	// the two wrong designs (regression demonstrations): the deadlock of the code before commit 89caa94, and closing before the join
-	one := "{[c |-> 2, n |-> 1, budget |-> -1, pre |-> FALSE, bar |-> 0]}"
+	one := "{[c |-> 2, n |-> 1, budget |-> -1, pre |-> FALSE, bar |-> 0, heal |-> FALSE]}"
 	if ctx.Thorough() {
-		one = "{[c |-> 3, n |-> 2, budget |-> -1, pre |-> FALSE, bar |-> 0]}"
+		one = "{[c |-> 3, n |-> 2, budget |-> -1, pre |-> FALSE, bar |-> 0, heal |-> FALSE]}"
 	}
 	addJob("spg-defect-send", c19SPGOpt(one, 3, false, false, false, 1, 10*time.Minute))
 	addJob("spg-defect-close", c19SPGOpt(one, 3, true, true, false, 1, 10*time.Minute))
 	// errCh with less room than one error per producer: (1) capacity 1, three producers whose entropy source has failed -
 	// the consumer receives one error and returns, one more fits, the third producer blocks in its send for ever and
 	// wg.Wait() with it; (2) capacity c-1: the same as soon as the consumer returns for another reason (cancellation)
-	addJob("spg-defect-errcap-1", c19SPGOptCaps("[c : {3}, n : {1}, budget : {0}, pre : {FALSE}, bar : {0, 3}]", 3, true, false, false, 1, 10*time.Minute, "CodePrimeCap", "ErrCapOne", "TypeOK"))
-	addJob("spg-defect-errcap-c-1", c19SPGOptCaps(fmt.Sprintf("[c : 2..%d, n : {1}, budget : {0, 1}, pre : {FALSE}, bar : {0}]", ctx.Pick(2, 3)), 3, true, false, false, 1, 10*time.Minute, "CodePrimeCap", "ErrCapAllButOne", "TypeOK"))
+	addJob("spg-defect-errcap-1", c19SPGOptCaps("[c : {3}, n : {1}, budget : {0}, pre : {FALSE}, bar : {0, 3}, heal : {FALSE}]", 3, true, false, false, 1, 10*time.Minute, "CodePrimeCap", "ErrCapOne", "TypeOK"))
+	addJob("spg-defect-errcap-c-1", c19SPGOptCaps(fmt.Sprintf("[c : 2..%d, n : {1}, budget : {0, 1}, pre : {FALSE}, bar : {0}, heal : {FALSE}]", ctx.Pick(2, 3)), 3, true, false, false, 1, 10*time.Minute, "CodePrimeCap", "ErrCapAllButOne", "TypeOK"))
 	if ctx.Thorough() {
-		addJob("spg-safety", c19SPGOpt("[c : 1..4, n : 1..3, budget : {-1, 0, 1, 2, 3, 4}, pre : BOOLEAN, bar : {0}] \\cup [c : 1..4, n : 1..3, budget : {0, 1, 2}, pre : {FALSE}, bar : {1, 4}]", 4, true, false, false, 6, 40*time.Minute))
-		addJob("spg-liveness", c19SPGOpt("[c : 1..3, n : 1..2, budget : {-1, 0, 1, 2, 3}, pre : BOOLEAN, bar : {0}] \\cup [c : {3}, n : 1..2, budget : {0, 1}, pre : {FALSE}, bar : {3}]", 3, true, false, true, 6, 40*time.Minute))
+		addJob("spg-safety", c19SPGOpt("[c : 1..4, n : 1..3, budget : {-1, 0, 1, 2, 3, 4}, pre : BOOLEAN, bar : {0}, heal : {FALSE}] \\cup [c : 1..4, n : 1..3, budget : {0, 1, 2}, pre : {FALSE}, bar : {1, 4}, heal : {FALSE}] \\cup [c : 1..4, n : 1..3, budget : {0, 1, 2}, pre : BOOLEAN, bar : {0}, heal : {TRUE}]", 4, true, false, false, 6, 40*time.Minute))
+		addJob("spg-liveness", c19SPGOpt("[c : 1..3, n : 1..2, budget : {-1, 0, 1, 2, 3}, pre : BOOLEAN, bar : {0}, heal : {FALSE}] \\cup [c : {3}, n : 1..2, budget : {0, 1}, pre : {FALSE}, bar : {3}, heal : {FALSE}] \\cup [c : 2..3, n : 1..2, budget : {0, 1}, pre : {FALSE}, bar : {0}, heal : {TRUE}]", 3, true, false, true, 6, 40*time.Minute))
 		// primeCh with room for numPrimes results only: harmless, because that send gives up when the generator context is done
-		addJob("spg-primecap-n", c19SPGOptCaps("[c : 1..3, n : 1..2, budget : {-1, 0, 2}, pre : BOOLEAN, bar : {0}]", 3, true, false, true, 6, 40*time.Minute, "PrimeCapN", "CodeErrCap", c19SPGInvs))
+		addJob("spg-primecap-n", c19SPGOptCaps("[c : 1..3, n : 1..2, budget : {-1, 0, 2}, pre : BOOLEAN, bar : {0}, heal : {FALSE}]", 3, true, false, true, 6, 40*time.Minute, "PrimeCapN", "CodeErrCap", c19SPGInvs))
 	} else {
 		// quick: invariants and liveness for c <= 2 in one run (all budgets), invariants for c = 3 on the two budgets that matter
 		// and on the sources that fail for all three producers at once
-		addJob("spg-safety", c19SPGOpt("[c : {3}, n : 1..2, budget : {-1, 2}, pre : BOOLEAN, bar : {0}] \\cup [c : {3}, n : 1..2, budget : {0, 1}, pre : {FALSE}, bar : {3}]", 3, true, false, false, 3, 20*time.Minute))
-		addJob("spg-liveness", c19SPGOpt("[c : 1..2, n : 1..2, budget : {-1, 0, 1, 2}, pre : BOOLEAN, bar : {0}] \\cup [c : {2}, n : {1}, budget : {0, 1}, pre : {FALSE}, bar : {2}]", 2, true, false, true, 3, 20*time.Minute))
+		addJob("spg-safety", c19SPGOpt("[c : {3}, n : 1..2, budget : {-1, 2}, pre : BOOLEAN, bar : {0}, heal : {FALSE}] \\cup [c : {3}, n : 1..2, budget : {0, 1}, pre : {FALSE}, bar : {3}, heal : {FALSE}] \\cup [c : {3}, n : 1..2, budget : {0, 1}, pre : {FALSE}, bar : {0}, heal : {TRUE}]", 3, true, false, false, 3, 20*time.Minute))
+		addJob("spg-liveness", c19SPGOpt("[c : 1..2, n : 1..2, budget : {-1, 0, 1, 2}, pre : BOOLEAN, bar : {0}, heal : {FALSE}] \\cup [c : {2}, n : {1}, budget : {0, 1}, pre : {FALSE}, bar : {2}, heal : {FALSE}] \\cup [c : {2}, n : 1..2, budget : {0, 1}, pre : {FALSE}, bar : {0}, heal : {TRUE}]", 2, true, false, true, 3, 20*time.Minute))
 	}
 
 	// ---------------- the real code, wave 1: generator, helpers, pre-parameters in child processes
